@@ -122,6 +122,9 @@ func (d *deriver) varOpaque(id, name, text string, pkgs []string) *interp.Opaque
 }
 
 func pkgsOfText(m *Model, text string) []string {
+	if text == "[]any" {
+		return nil
+	}
 	var out []string
 	if strings.Contains(text, "dep.") {
 		out = append(out, DepPath)
